@@ -117,7 +117,7 @@ func lemmaObligations(ct *Contracts, lm *Lemma) ([]*Obligation, error) {
 			if ul == nil {
 				continue
 			}
-			fmt.Fprintf(&body, "; using %s\n(assert %s)\n", u, ul.Formula)
+			fmt.Fprintf(&body, "; using %s\n(assert %s)\n", u, ul.axiomForm())
 		}
 		for _, h := range lm.Hints {
 			fmt.Fprintf(&body, "(assert %s)\n", h)
